@@ -9,6 +9,7 @@ import (
 	"net"
 	"net/http"
 	"net/http/httptest"
+	"strings"
 	"sync"
 	"sync/atomic"
 	"testing"
@@ -106,25 +107,45 @@ func TestVerifC19Config(t *testing.T) {
 
 func TestVerifC19Behaviour(t *testing.T) {
 	L := ev.Begin("C19", "c19-behaviour", "exploration",
-		"upstream {answers at once, holds its response headers until released} x proxy.responseheadertimeout {unset, 200ms, 5s} through transport.SetConfig + main.newHTTPProxy + ServeHTTP: a held upstream with the 200ms limit must produce 504 while the upstream is still holding (causal: the harness releases the upstream only after the proxy answered; a 20s guard turns 'never answered' into the violation); an upstream answering at once yields 200 under every setting. non-trivial = every case")
+		"upstream {answers at once, holds its response headers until released (plain request, event-stream request, proxy with a flush interval), answers at once and streams its body for 1.5s} x proxy.responseheadertimeout {unset, 200ms, 5s} through transport.SetConfig + main.newHTTPProxy + ServeHTTP: a held upstream with the 200ms limit must produce 504 while the upstream is still holding (causal: the harness releases the upstream only after the proxy answered; a 20s guard turns 'never answered' into the violation); an upstream answering at once yields 200 under every setting. non-trivial = every case")
 	var hold atomic.Value
+	var slow atomic.Value // if set: the upstream answers at once and then streams its body for this long
+	slow.Store(time.Duration(0))
 	entered := make(chan struct{}, 16)
 	up := httptest.NewServer(http.HandlerFunc(func(w http.ResponseWriter, r *http.Request) {
 		if ch, _ := hold.Load().(chan struct{}); ch != nil {
 			entered <- struct{}{}
 			<-ch
 		}
+		if d, _ := slow.Load().(time.Duration); d > 0 {
+			// headers at once, then a body that keeps coming for longer than any configured connect/header limit
+			w.WriteHeader(200)
+			for i := 0; i < 6; i++ {
+				w.Write([]byte("0123456789"))
+				w.(http.Flusher).Flush()
+				time.Sleep(d / 6)
+			}
+			return
+		}
 		w.Write([]byte("ok"))
 	}))
 	defer up.Close()
 	for _, rh := range []time.Duration{0, 200 * time.Millisecond, 5 * time.Second} {
-		for _, held := range []bool{false, true} {
-			if held && rh != 200*time.Millisecond {
+		for _, mode := range []string{"prompt", "held", "held/event-stream-request", "held/flush-interval", "prompt/slow-body"} {
+			held := strings.HasPrefix(mode, "held")
+			if (held || mode == "prompt/slow-body") && rh != 200*time.Millisecond {
 				continue // without the short limit a held upstream simply holds the client, as configured
 			}
 			cfg := &config.Config{}
 			cfg.Proxy.ResponseHeaderTimeout = rh
 			cfg.Proxy.DialTimeout = 5 * time.Second
+			if mode == "prompt/slow-body" {
+				cfg.Proxy.DialTimeout = 300 * time.Millisecond
+			}
+			if mode == "held/flush-interval" {
+				cfg.Proxy.FlushInterval = 50 * time.Millisecond
+				cfg.Proxy.GlobalFlushInterval = 50 * time.Millisecond
+			}
 			cfg.Proxy.Strategy, cfg.Proxy.Matcher, cfg.GlobCacheSize = "rr", "prefix", 10
 			transport.SetConfig(cfg)
 			hp := newHTTPProxy(cfg, c19Stats())
@@ -140,15 +161,23 @@ func TestVerifC19Behaviour(t *testing.T) {
 			} else {
 				hold.Store((chan struct{})(nil))
 			}
-			req, _ := http.ReadRequest(bufio.NewReader(bytes.NewBufferString("GET /x HTTP/1.1\r\nHost: foo.com\r\n\r\n")))
+			slow.Store(time.Duration(0))
+			if mode == "prompt/slow-body" {
+				slow.Store(1500 * time.Millisecond) // three times dial timeout + response header timeout
+			}
+			raw := "GET /x HTTP/1.1\r\nHost: foo.com\r\n\r\n"
+			if mode == "held/event-stream-request" {
+				raw = "GET /x HTTP/1.1\r\nHost: foo.com\r\nAccept: text/event-stream\r\n\r\n"
+			}
+			req, _ := http.ReadRequest(bufio.NewReader(bytes.NewBufferString(raw)))
 			req.RemoteAddr = "10.1.1.1:999"
 			rec := httptest.NewRecorder()
 			done := make(chan struct{})
 			start := time.Now()
 			go func() { hp.ServeHTTP(rec, req); close(done) }()
 			L.Case()
-			L.NontrivialKey(fmt.Sprint(rh, held))
-			d := map[string]interface{}{"responseheadertimeout": rh.String(), "upstream_held": held}
+			L.NontrivialKey(fmt.Sprint(rh, mode))
+			d := map[string]interface{}{"responseheadertimeout": rh.String(), "upstream": mode}
 			answered := false
 			select {
 			case <-done:
@@ -164,7 +193,7 @@ func TestVerifC19Behaviour(t *testing.T) {
 				default:
 				}
 			}
-			d["status"] = rec.Code
+			d["status"], d["body_bytes"] = rec.Code, rec.Body.Len()
 			L.Sample(d)
 			L.Outcome(fmt.Sprint(rec.Code))
 			switch {
@@ -173,6 +202,10 @@ func TestVerifC19Behaviour(t *testing.T) {
 			case held && rec.Code != http.StatusGatewayTimeout:
 				L.Violation("timeout-not-reported-as-504", d)
 			case !held && rec.Code != 200:
+				L.Violation("prompt-upstream-not-served", d)
+			case mode == "prompt/slow-body" && rec.Body.String() != strings.Repeat("0123456789", 6):
+				L.Violation("upstream-that-answered-in-time-not-served-completely", d)
+			case mode == "prompt" && rec.Body.String() != "ok":
 				L.Violation("prompt-upstream-not-served", d)
 			}
 		}
